@@ -209,6 +209,10 @@ func DistMatrix(al align.Alignment, weights []float64, model DistModel, range1Mi
 		}
 	}()
 
+	// A raw distance is a (weighted) number of differences, not a number of
+	// substitutions per site: a large value is a valid count, not a sign of saturation
+	_, rawcounts := model.(*RawDistModel)
+
 	var wg sync.WaitGroup
 	max := 0.0
 	for cpu := 0; cpu < cpus; cpu++ {
@@ -240,7 +244,7 @@ func DistMatrix(al align.Alignment, weights []float64, model DistModel, range1Mi
 					verifhook.At("dm.w.dist", sp.i, sp.j)
 					mux.Lock()
 					verifhook.At("dm.w.lock", sp.i, sp.j)
-					if outmatrix[sp.i][sp.j] < 0 || outmatrix[sp.i][sp.j] == math.Inf(1) || outmatrix[sp.i][sp.j] > NT_DIST_OVER {
+					if outmatrix[sp.i][sp.j] < 0 || outmatrix[sp.i][sp.j] == math.Inf(1) || (!rawcounts && outmatrix[sp.i][sp.j] > NT_DIST_OVER) {
 						uncompute = append(uncompute, seqpairdist{sp.i, sp.j, nil, nil, nil, nil})
 					} else if outmatrix[sp.i][sp.j] > max {
 						max = outmatrix[sp.i][sp.j]
